@@ -10,6 +10,7 @@ holds after `reset` and after every `step` (`jobshop_cached_mask_*`).
 -/
 import JumanjiModel.Env.JobShop.Lemmas
 import JumanjiModel.Env.JobShop.Bounds
+import JumanjiModel.Env.JobShop.CompletionLemmas
 open Jm JobShop
 
 /-- a concrete mid-episode state (2 jobs, 2 machines, 2 ops; job 0's first op runs on machine 0
@@ -147,6 +148,49 @@ example : CompletesBy ⟨1, 1, 1, 2⟩ (initState ⟨1, 1, 1, 2⟩ [[0]] [[2]]) 
   refine ⟨?_, ?_⟩
   · simp only [CompletesBy]; decide +kernel
   · decide +kernel
+
+/-- the interaction of the two end conditions: under a legal action from an unfinished state, a finished
+successor never has all machines idle (the machine that ran the last op keeps its job id), so the completing
+step is rewarded −1, never the idle penalty, and is LAST.  No assumption on durations. -/
+theorem jobshop_finished_not_idle (cfg : Cfg) (s : State) (a : List Int) (hI : Inv cfg s)
+    (hL : legalAction cfg s a) (hnf : finished cfg s = false) (hf : finished cfg (next cfg s a) = true) :
+    allIdle cfg (next cfg s a) = false := JobShop.finished_not_idle cfg s a hI hL hnf hf
+
+theorem jobshop_completing_step (cfg : Cfg) (s : State) (a : List Int) (hI : Inv cfg s)
+    (hC : s.amask = maskOf cfg s) (hL : legalAction cfg s a) (hnf : finished cfg s = false)
+    (hf : finished cfg (next cfg s a) = true) :
+    (step cfg s a).2.reward = [-1] ∧ (step cfg s a).2.stepType = .last :=
+  JobShop.completing_step cfg s a hI hC hL hnf hf
+
+/-- `CompletesBy` (which ASSUMES "not all machines idle" also at the completing step) follows from the episode as
+the environment sees it: `EndsByCompletion` = every action legal, every timestep before the last is not LAST,
+the schedule is finished after the last action -/
+theorem jobshop_completesBy_of_ends (cfg : Cfg) (s : State) (as : List (List Int)) (hI : Inv cfg s)
+    (hnf : finished cfg s = false) (he : EndsByCompletion cfg s as) : CompletesBy cfg s as :=
+  JobShop.completesBy_of_ends cfg as s hI hnf he
+
+/-- whole episodes, leftover hypothesis discharged: from a fresh unfinished instance (clock 0) a legal episode that
+runs (no LAST before its end) until the schedule is finished has return = −makespan of the final schedule, and the
+final state is a complete feasible solution.  (`finished cfg s = false` is needed: on an instance without any op
+the first step leaves all machines idle and is penalised.) -/
+theorem jobshop_return_eq_neg_makespan' (cfg : Cfg) (s : State) (as : List (List Int)) (hI : Inv cfg s)
+    (hC : s.amask = maskOf cfg s) (hD : DurationsOK cfg s) (h0 : s.stepCount = 0)
+    (hnf : finished cfg s = false) (he : EndsByCompletion cfg s as) :
+    (play cfg s as).2 = objective cfg (play cfg s as).1 ∧ IsSolution cfg (play cfg s as).1 :=
+  JobShop.return_eq_objective' cfg s as hI hC hD h0 hnf he
+
+/-- the hypotheses are satisfiable: the 1-job instance above, played to completion -/
+example : Inv ⟨1, 1, 1, 2⟩ (initState ⟨1, 1, 1, 2⟩ [[0]] [[2]]) ∧
+    finished ⟨1, 1, 1, 2⟩ (initState ⟨1, 1, 1, 2⟩ [[0]] [[2]]) = false ∧
+    DurationsOK ⟨1, 1, 1, 2⟩ (initState ⟨1, 1, 1, 2⟩ [[0]] [[2]]) ∧
+    EndsByCompletion ⟨1, 1, 1, 2⟩ (initState ⟨1, 1, 1, 2⟩ [[0]] [[2]]) [[0], [1]] := by
+  refine ⟨by decide +kernel, by decide +kernel, by decide +kernel, ?_⟩
+  simp only [EndsByCompletion]; decide +kernel
+
+/-- the empty instance shows why `finished cfg s = false` is assumed: all machines idle after the first step,
+penalty instead of −makespan = 0 -/
+example : (step ⟨1, 1, 1, 2⟩ (initState ⟨1, 1, 1, 2⟩ [[-1]] [[-1]]) [1]).2.reward = [penalty ⟨1, 1, 1, 2⟩] ∧
+    finished ⟨1, 1, 1, 2⟩ (initState ⟨1, 1, 1, 2⟩ [[-1]] [[-1]]) = true := by decide +kernel
 end Props.C08
 
 namespace Props.C09
